@@ -121,6 +121,55 @@ class Opaque:
         return "<opaque %s>" % self.why
 
 
+class PiV(Opaque):
+    """the constant pi"""
+
+    def __init__(self):
+        Opaque.__init__(self, "pi")
+
+
+class ConstArr(Opaque):
+    """an array of `size` equal entries (1 or pi): np.ones(n), np.full(n, v), v * np.ones(n)"""
+
+    def __init__(self, size, val):
+        Opaque.__init__(self, "constant array")
+        self.size, self.val = lin(size), val
+
+
+def strip_neutral(node):
+    """e + 0, 0 + e, e * 1, 1 * e, +e  ->  e"""
+    while True:
+        if isinstance(node, ast.BinOp) and isinstance(node.op, (ast.Add, ast.Sub)) and \
+                isinstance(node.right, ast.Constant) and node.right.value in (0, 0.0):
+            node = node.left
+        elif isinstance(node, ast.BinOp) and isinstance(node.op, ast.Add) and \
+                isinstance(node.left, ast.Constant) and node.left.value in (0, 0.0):
+            node = node.right
+        elif isinstance(node, ast.BinOp) and isinstance(node.op, (ast.Mult, ast.Div)) and \
+                isinstance(node.right, ast.Constant) and node.right.value in (1, 1.0):
+            node = node.left
+        elif isinstance(node, ast.BinOp) and isinstance(node.op, ast.Mult) and \
+                isinstance(node.left, ast.Constant) and node.left.value in (1, 1.0):
+            node = node.right
+        elif isinstance(node, ast.UnaryOp) and isinstance(node.op, ast.UAdd):
+            node = node.operand
+        else:
+            return node
+
+
+class MatV(Opaque):
+    """symbolic matrix: ("cheb", call) | ("inv", m) | ("T", m)"""
+
+    def __init__(self, op, arg):
+        Opaque.__init__(self, "matrix")
+        self.op, self.arg = op, arg
+
+    def coq(self):
+        if self.op == "cheb":
+            return "MT"
+        return "(%s %s)" % ({"inv": "MInv", "T": "MTr"}[self.op], self.arg.coq())
+
+
 class ArrayV:
     """a definitely-not-None array argument supplied by the caller"""
 
@@ -154,7 +203,11 @@ class Interp:
         self.env = dict(env)
         self.calls = []      # (name, [values])
         self.events = []     # augmented assignments / slices on watched names
-        self.watch = set(watch)
+        self.watch_all = watch == "*"
+        self.watch = set() if self.watch_all else set(watch)
+
+    def watched(self, name):
+        return name is not None and (self.watch_all or name in self.watch)
 
     # -- expressions ---------------------------------------------------------------
     def name_of(self, node):
@@ -194,8 +247,8 @@ class Interp:
                     return base.size
                 if isinstance(base, Rng):
                     return base.hi - base.lo
-            if dn in ("np.pi",):
-                return Opaque("pi")
+            if dn in ("np.pi", "math.pi", "numpy.pi"):
+                return PiV()
             return Opaque(dn)
         if isinstance(node, ast.Tuple):
             return tuple(self.ev(e) for e in node.elts)
@@ -258,6 +311,13 @@ class Interp:
             if isinstance(a, (tuple, list)) and isinstance(b, (tuple, list)) and \
                     isinstance(node.op, ast.Add):
                 return tuple(a) + tuple(b)
+            if isinstance(node.op, ast.Mult):
+                for u, v in ((a, b), (b, a)):
+                    if isinstance(u, PiV) and isinstance(v, ConstArr) and v.val == 1:
+                        return ConstArr(v.size, "pi")
+                    if isinstance(u, ConstArr) and not isinstance(v, Opaque) and \
+                            isinstance(v, (int, float)) and v == 1:
+                        return u
             return Opaque("binop")
         if isinstance(node, ast.Subscript):
             base = self.ev(node.value)
@@ -321,12 +381,34 @@ class Interp:
             return len(args[0]) if isinstance(args[0], (list, tuple)) else Opaque("len")
         if fn in ("np.array", "np.asarray", "np.asanyarray") and args:
             return args[0]
+        if fn == "np.ones" and len(args) == 1 and isinstance(args[0], (int, Lin)):
+            return ConstArr(args[0], 1)
+        if fn == "np.full" and len(args) == 2 and isinstance(args[0], (int, Lin)):
+            if isinstance(args[1], PiV):
+                return ConstArr(args[0], "pi")
+            if args[1] in (1, 1.0) and not isinstance(args[1], Opaque):
+                return ConstArr(args[0], 1)
+        if fn == "np.identity" or (fn or "").startswith("self._"):
+            self.calls.append((fn, args, node))
+            return Opaque(fn)
         if fn in ("self.chebyshev", "self.cardinal", "eval_chebyu", "eval_chebyt"):
             self.calls.append((fn, args, node))
-            return Opaque(fn)
+            return MatV("cheb", node) if fn == "self.chebyshev" else Opaque(fn)
         if fn == "np.transpose":
             self.calls.append((fn, args, node))
+            if args and isinstance(args[0], MatV) and len(args) == 1 and not node.keywords:
+                return MatV("T", args[0])
             return Opaque(fn)
+        if fn == "np.linalg.inv" and len(args) == 1 and isinstance(args[0], MatV):
+            return MatV("inv", args[0])
+        if fn == "np.expand_dims" and args and isinstance(args[0], MatV):
+            return args[0]
+        if fn == "np.sum" and node.args and isinstance(node.args[0], ast.BinOp) and \
+                isinstance(node.args[0].op, ast.Mult):
+            ops_ = [self.ev(node.args[0].left), self.ev(node.args[0].right)]
+            mats = [v for v in ops_ if isinstance(v, MatV)]
+            if len(mats) == 1:
+                self.calls.append(("contract", mats, node))
         return Opaque("call %s" % fn)
 
     # -- statements ----------------------------------------------------------------
@@ -363,21 +445,29 @@ class Interp:
             return
         if isinstance(st, ast.Assign):
             # slices of watched arrays:  deriv = derivWithEndpoints[1:-1, :]
-            if isinstance(st.value, ast.Subscript) and \
-                    self.name_of(st.value.value) in self.watch:
-                self.events.append(("slice", self.name_of(st.value.value), st.value.slice))
-            if isinstance(st.value, ast.Name) and st.value.id in self.watch:
+            if isinstance(st.value, ast.Subscript) and isinstance(st.value.value, ast.Name) \
+                    and self.watched(st.value.value.id):
+                self.events.append(("slice", st.value.value.id, st.value.slice))
+            if isinstance(st.value, ast.Name) and self.watched(st.value.id):
                 self.events.append(("alias", st.value.id, None))
             val = self.ev(st.value)
-            if any(self.name_of(t) in self.watch for t in st.targets):
-                self.events.append(("init", self.name_of(st.targets[0]), st.value))
+            # x = x * e  /  x = e * x : the not-in-place spelling of  x *= e
+            if len(st.targets) == 1 and isinstance(st.targets[0], ast.Name) and \
+                    self.watched(st.targets[0].id) and isinstance(st.value, ast.BinOp):
+                for u, v in ((st.value.left, st.value.right), (st.value.right, st.value.left)):
+                    if isinstance(u, ast.Name) and u.id == st.targets[0].id:
+                        self.events.append(("rebind", u.id, (None, type(st.value.op).__name__,
+                                                             v, self.ev(v))))
+                        break
+            if any(isinstance(t, ast.Name) and self.watched(t.id) for t in st.targets):
+                self.events.append(("init", self.name_of(st.targets[0]), st.value, val))
             for t in st.targets:
                 self.assign(t, val)
             return
         if isinstance(st, ast.AugAssign):
             tn = self.name_of(st.target) if not isinstance(st.target, ast.Subscript) \
                 else self.name_of(st.target.value)
-            if tn in self.watch:
+            if self.watched(tn) and not isinstance(self.env.get(tn), Rng):
                 idx = None
                 if isinstance(st.target, ast.Subscript):
                     idx = self.ev(st.target.slice)
@@ -437,6 +527,7 @@ class Interp:
             return
         if isinstance(st, ast.Return):
             if st.value is not None:
+                self.retnode = st.value
                 self.retval = self.ev(st.value)
             raise Return()
         if isinstance(st, ast.Raise):
@@ -451,12 +542,40 @@ class Interp:
             pass
 
 
-def methods(src):
+def methods(src, cls="Polynomial"):
+    """method table of the class; fail closed on everything that changes what a method name
+    means without showing in its body: decorators, hooks, double definitions, class-level
+    rebinding (pyrx.check_plain_class) and module-level patching `Cls.f = g`,
+    `setattr(Cls, ...)`, a second class of the same name."""
+    import pyrx
     tree = ast.parse(src)
-    for node in tree.body:
-        if isinstance(node, ast.ClassDef) and node.name == "Polynomial":
-            return {f.name: f for f in node.body if isinstance(f, ast.FunctionDef)}
-    raise TranslateError("class Polynomial not found")
+    found = [n for n in tree.body if isinstance(n, ast.ClassDef) and n.name == cls]
+    if len(found) != 1:
+        raise TranslateError("class %s not found exactly once" % cls)
+    try:
+        pyrx.check_plain_class(found[0])
+    except pyrx.TranslateError as e:
+        raise TranslateError(str(e))
+    for n in ast.walk(tree):
+        tg = []
+        if isinstance(n, ast.Assign):
+            tg = n.targets
+        elif isinstance(n, (ast.AugAssign, ast.AnnAssign)):
+            tg = [n.target]
+        elif isinstance(n, ast.Delete):
+            tg = n.targets
+        for t in tg:
+            for e in ast.walk(t):
+                if isinstance(e, ast.Attribute) and isinstance(e.value, ast.Name) and \
+                        e.value.id == cls:
+                    raise TranslateError("module patches %s.%s (line %d)" % (
+                        cls, e.attr, n.lineno))
+        if isinstance(n, ast.Call) and isinstance(n.func, ast.Name) and \
+                n.func.id in ("setattr", "delattr") and n.args and \
+                isinstance(n.args[0], ast.Name) and n.args[0].id == cls:
+            raise TranslateError("module patches %s through %s (line %d)" % (
+                cls, n.func.id, n.lineno))
+    return {f.name: f for f in found[0].body if isinstance(f, ast.FunctionDef)}
 
 
 def need_rng(v, what):
@@ -480,10 +599,17 @@ def cfg_coq(rng, r, what):
     return "mkcfg %s %s %s" % (rng.lo.coq(), rng.hi.coq(), restr_coq(r, what))
 
 
-def parity_where(node, xname):
-    """np.where(<n> % 2 == 0, a, b) with a, b in {0, 1, <xname>} -> (a, b)"""
-    if not (isinstance(node, ast.Call) and ast.unparse(node.func) == "np.where" and
-            len(node.args) == 3):
+def same_value(u, v):
+    if isinstance(u, Rng) and isinstance(v, Rng):
+        return u.lo == v.lo and u.hi == v.hi
+    return u is v
+
+
+def parity_where(node, it, nval, xval):
+    """np.where(<n> % 2 == 0, a, b) with a, b in {0, 1, <x>} -> (a, b); <n> and <x> are
+    recognised by the VALUE they are bound to in the interpreter `it` (not by their name)"""
+    if not (isinstance(node, ast.Call) and it.name_of(node.func) in ("np.where", "numpy.where")
+            and len(node.args) == 3 and not node.keywords):
         return None
     cond = node.args[0]
     if not (isinstance(cond, ast.Compare) and len(cond.ops) == 1 and
@@ -493,16 +619,14 @@ def parity_where(node, xname):
             isinstance(cond.comparators[0], ast.Constant) and
             cond.comparators[0].value == 0):
         return None
-    base = cond.left.left
-    while isinstance(base, ast.Subscript):
-        base = base.value
-    if not (isinstance(base, ast.Name) and base.id == "n"):
+    if not same_value(it.ev(it.strip_index(cond.left.left)), nval):
         return None
 
     def leaf(e):
-        if isinstance(e, ast.Constant) and e.value in (0, 1):
+        if isinstance(e, ast.Constant) and e.value in (0, 1) and \
+                not isinstance(e.value, bool):
             return e.value
-        if isinstance(e, ast.Name) and e.id == xname:
+        if xval is not None and it.ev(it.strip_index(e)) is xval:
             return "x"
         return None
     a, b = leaf(node.args[1]), leaf(node.args[2])
@@ -514,7 +638,11 @@ def parity_where(node, xname):
 ALLOC_CALLS = {"np.array", "np.copy", "np.multiply", "np.zeros", "np.ones", "np.sum",
                "np.einsum", "np.tensordot", "np.arange", "np.identity", "np.prod",
                "np.where", "np.divide", "np.linalg.inv", "np.linspace", "np.sqrt",
-               "eval_chebyt", "eval_chebyu", "list", "tuple", "float", "int"}
+               "eval_chebyt", "eval_chebyu", "list", "tuple", "float", "int", "np.full",
+               "np.empty", "np.zeros_like", "np.ones_like", "np.full_like", "np.empty_like",
+               "np.eye", "np.diag", "np.outer", "np.dot", "np.matmul", "np.linalg.solve",
+               "np.concatenate", "np.stack", "np.cos", "np.sin", "np.exp", "np.log",
+               "np.abs", "np.power", "np.add", "np.subtract", "dict", "set", "range"}
 VIEW_CALLS = {"np.asarray", "np.asanyarray", "np.ascontiguousarray", "np.reshape",
               "np.expand_dims", "np.squeeze", "np.transpose", "np.moveaxis"}
 
@@ -545,17 +673,31 @@ def fresh_expr(node, known):
                          ast.unparse(node)[:60])
 
 
+MUTATING_METHODS = {"fill", "sort", "resize", "put", "itemset", "partition", "byteswap",
+                    "setfield", "setflags", "append", "extend", "insert", "pop", "remove",
+                    "clear", "reverse", "update", "setdefault", "popitem", "__setitem__",
+                    "__iadd__", "__imul__", "__isub__", "__itruediv__"}
+MUTATING_FUNCS = {"np.copyto", "np.put", "np.place", "np.putmask", "np.fill_diagonal",
+                  "np.put_along_axis", "np.ndarray.fill", "np.ndarray.sort", "setattr",
+                  "delattr"}
+
+
 def alias_scan(ms):
-    """Every in-place update (`x op= ...`, `x[i] op= ...`) in every method of the class must
-    act on an array allocated inside the method.  Flow-sensitive may-alias pass: a name is
-    fresh only if it is fresh on every path.  Returns the offending updates."""
+    """Every in-place update in every method of the class must act on an object allocated
+    inside the method.  In-place update = augmented assignment, store through a subscript
+    (`x[...] = ..`, `self.a[...] = ..`, `x.a = ..` for a non-self x), a call with `out=`,
+    a mutating method (`fill`, `sort`, `put`, ..., list `append` ...) or numpy function
+    (`np.copyto`, `np.put`, ...).  Rebinding `self.attr = <new object>` is not an update of
+    the old object.  Flow-sensitive may-alias pass: a name is fresh only if it is fresh on
+    every path; attributes, arguments, views of them are never fresh.  `del`, `global`,
+    `nonlocal`, `exec`, `eval` fail closed.  Returns the offending updates."""
     bad = []
 
     def fresh_or_false(node, known):
         if isinstance(node, ast.Constant):
             return True
         if isinstance(node, (ast.List, ast.Tuple, ast.ListComp, ast.Dict, ast.JoinedStr,
-                             ast.Compare, ast.BoolOp)):
+                             ast.Compare, ast.BoolOp, ast.Set, ast.DictComp, ast.SetComp)):
             return True
         if isinstance(node, ast.IfExp):
             return fresh_or_false(node.body, known) and fresh_or_false(node.orelse, known)
@@ -567,49 +709,153 @@ def alias_scan(ms):
     def join(a, b):
         return {k: a.get(k, False) and b.get(k, False) for k in set(a) | set(b)}
 
+    def root_fresh(t, known):
+        """freshness of the object a store/mutation through expression t reaches"""
+        while isinstance(t, ast.Subscript):
+            t = t.value
+        if isinstance(t, ast.Name):
+            return bool(known.get(t.id, False))
+        return fresh_or_false(t, known) if isinstance(t, ast.Call) else False
+
+    def flag(mname, node):
+        bad.append((mname, node.lineno, ast.unparse(node)[:60].replace("\n", " ")))
+
+    def scan_calls(st, known, mname):
+        """calls anywhere inside the simple statement st"""
+        for nd in ast.walk(st):
+            if isinstance(nd, (ast.Lambda, ast.FunctionDef)):
+                raise TranslateError("nested function in %s (line %d)" % (mname, st.lineno))
+            if not isinstance(nd, ast.Call):
+                continue
+            fn = ast.unparse(nd.func)
+            if fn in ("exec", "eval", "globals", "locals", "vars", "object.__setattr__"):
+                raise TranslateError("%s calls %s (line %d)" % (mname, fn, nd.lineno))
+            for k in nd.keywords:
+                if k.arg == "out" and not (isinstance(k.value, ast.Constant) and
+                                           k.value.value is None):
+                    outs = k.value.elts if isinstance(k.value, ast.Tuple) else [k.value]
+                    if not all(root_fresh(o, known) for o in outs):
+                        flag(mname, nd)
+            if fn in MUTATING_FUNCS and nd.args and not root_fresh(nd.args[0], known):
+                flag(mname, nd)
+            if isinstance(nd.func, ast.Attribute) and nd.func.attr in MUTATING_METHODS \
+                    and not root_fresh(nd.func.value, known):
+                flag(mname, nd)
+
+    def store(t, known, mname, st, value_fresh):
+        if isinstance(t, ast.Name):
+            known[t.id] = value_fresh
+        elif isinstance(t, (ast.Tuple, ast.List)):
+            for e in t.elts:
+                store(e, known, mname, st, False if not isinstance(e, ast.Name) else
+                      value_fresh)
+        elif isinstance(t, ast.Subscript):
+            if not root_fresh(t, known):
+                flag(mname, st)
+        elif isinstance(t, ast.Attribute):
+            # self.attr = <object>: rebinding (allowed); x.attr = ... on another object or
+            # self.a.b = ...: an update of an object the method did not create
+            if not (isinstance(t.value, ast.Name) and t.value.id == "self") and \
+                    not root_fresh(t.value, known):
+                flag(mname, st)
+        elif isinstance(t, ast.Starred):
+            store(t.value, known, mname, st, False)
+
     def walk(stmts, known, mname):
         for st in stmts:
+            if isinstance(st, (ast.Delete, ast.Global, ast.Nonlocal)):
+                raise TranslateError("%s uses %s (line %d)" % (
+                    mname, type(st).__name__.lower(), st.lineno))
+            if isinstance(st, (ast.FunctionDef, ast.ClassDef, ast.AsyncFunctionDef)):
+                raise TranslateError("nested definition in %s (line %d)" % (mname, st.lineno))
             if isinstance(st, ast.Assign):
+                scan_calls(st, known, mname)
                 v = fresh_or_false(st.value, known)
                 for t in st.targets:
-                    if isinstance(t, ast.Name):
-                        known[t.id] = v
-                    elif isinstance(t, ast.Tuple):
-                        for e in t.elts:
-                            if isinstance(e, ast.Name):
-                                known[e.id] = all(
-                                    fresh_or_false(x, known) for x in st.value.elts) \
-                                    if isinstance(st.value, ast.Tuple) else False
+                    if isinstance(t, (ast.Tuple, ast.List)) and \
+                            isinstance(st.value, (ast.Tuple, ast.List)) and \
+                            len(t.elts) == len(st.value.elts):
+                        for e, x in zip(t.elts, st.value.elts):
+                            store(e, known, mname, st, fresh_or_false(x, known))
+                    elif isinstance(t, (ast.Tuple, ast.List)):
+                        store(t, known, mname, st, False)
+                    else:
+                        store(t, known, mname, st, v)
             elif isinstance(st, ast.AnnAssign):
-                if isinstance(st.target, ast.Name) and st.value is not None:
-                    known[st.target.id] = fresh_or_false(st.value, known)
+                if st.value is not None:
+                    scan_calls(st, known, mname)
+                    store(st.target, known, mname, st, fresh_or_false(st.value, known))
             elif isinstance(st, ast.AugAssign):
-                t = st.target
-                while isinstance(t, ast.Subscript):
-                    t = t.value
-                if isinstance(t, ast.Name):
-                    if not known.get(t.id, False):
-                        bad.append((mname, st.lineno, ast.unparse(st)[:60]))
-                else:
-                    bad.append((mname, st.lineno, ast.unparse(st)[:60]))
+                scan_calls(st, known, mname)
+                if isinstance(st.target, ast.Attribute) or not root_fresh(st.target, known):
+                    flag(mname, st)
             elif isinstance(st, ast.If):
+                scan_calls(st.test, known, mname)
                 known.update(join(walk(st.body, dict(known), mname),
                                   walk(st.orelse, dict(known), mname)))
             elif isinstance(st, (ast.For, ast.While)):
                 if isinstance(st, ast.For):
+                    scan_calls(st.iter, known, mname)
                     for e in ast.walk(st.target):
                         if isinstance(e, ast.Name):
                             known[e.id] = True      # loop counters / indices
+                else:
+                    scan_calls(st.test, known, mname)
                 k1 = walk(st.body, dict(known), mname)
                 k2 = walk(st.body, join(known, k1), mname)
                 known.update(join(known, join(k1, k2)))
-            elif isinstance(st, (ast.With, ast.Try)):
+                walk(st.orelse, known, mname)
+            elif isinstance(st, ast.With):
+                for it in st.items:
+                    scan_calls(it.context_expr, known, mname)
                 walk(st.body, known, mname)
+            elif isinstance(st, ast.Try):
+                walk(st.body, known, mname)
+                for h in st.handlers:
+                    walk(h.body, known, mname)
+                walk(st.orelse, known, mname)
+                walk(st.finalbody, known, mname)
+            elif isinstance(st, (ast.Expr, ast.Return, ast.Assert, ast.Raise)):
+                scan_calls(st, known, mname)
+            elif isinstance(st, (ast.Pass, ast.Break, ast.Continue, ast.Import,
+                                 ast.ImportFrom)):
+                pass
+            else:
+                raise TranslateError("%s: unsupported statement %s (line %d)" % (
+                    mname, type(st).__name__, st.lineno))
         return known
 
     for name, fn in ms.items():
         walk(fn.body, {}, name)
     return sorted(set(bad))
+
+
+def integrand_factor(it, node, wname, xnames):
+    """sqrt(1 - x**2) * weights, factors in either order, x = the node array of the axis"""
+    node = strip_neutral(node)
+    if not (isinstance(node, ast.BinOp) and isinstance(node.op, ast.Mult)):
+        return False
+    for u, v in ((node.left, node.right), (node.right, node.left)):
+        u, v = strip_neutral(u), strip_neutral(v)
+        if not (isinstance(v, ast.Name) and v.id == wname):
+            continue
+        if not (isinstance(u, ast.Call) and it.name_of(u.func) in ("np.sqrt", "numpy.sqrt")
+                and len(u.args) == 1):
+            continue
+        e = strip_neutral(u.args[0])
+        if not (isinstance(e, ast.BinOp) and isinstance(e.op, ast.Sub) and
+                isinstance(e.left, ast.Constant) and e.left.value in (1, 1.0)):
+            continue
+        sq = strip_neutral(e.right)
+        if isinstance(sq, ast.BinOp) and isinstance(sq.op, ast.Pow) and \
+                isinstance(sq.right, ast.Constant) and sq.right.value in (2, 2.0) and \
+                isinstance(sq.left, ast.Name) and sq.left.id in xnames:
+            return True
+        if isinstance(sq, ast.BinOp) and isinstance(sq.op, ast.Mult) and \
+                isinstance(sq.left, ast.Name) and isinstance(sq.right, ast.Name) and \
+                sq.left.id == sq.right.id and sq.left.id in xnames:
+            return True
+    return False
 
 
 def leaf_coq(v):
@@ -681,6 +927,47 @@ def generate(src):
                             [(repr(r[0]), r[1]) for r in pair[(a, b)]]
                             for a in kinds for b in kinds}
 
+    # ---- changeBasis: which matrix is contracted with the coefficients ---------------------
+    w("(* changeBasis: the matrix applied along an axis, as an expression in the matrix T of")
+    w("   basis-function values: to Chebyshev / to Cardinal, with / without inverseTranspose *)")
+    w("Inductive mexpr := MT | MInv (m : mexpr) | MTr (m : mexpr).")
+    tabm = {}
+    for tocheb in (True, False):
+        for itr in (True, False):
+            env = base_env()
+            env.update({"self.rank": 1,
+                        "self.basis": ("Cardinal" if tocheb else "Chebyshev",),
+                        "newBasis": ("Chebyshev" if tocheb else "Cardinal",),
+                        "self.direction": ("z",), "self.endpoints": (False,),
+                        "inverseTranspose": itr})
+            it = Interp(env)
+            it.run_method(ms["changeBasis"])
+            cs = [c for c in it.calls if c[0] == "contract"]
+            if len(cs) != 1:
+                raise TranslateError("changeBasis: expected one contraction "
+                                     "np.sum(matrix * expand_dims(coefficients, i), axis=i+1)")
+            tabm[(tocheb, itr)] = cs[0][1][0].coq()
+    w("Definition gen_cb_matrix (toCheb inverseTranspose : bool) : mexpr :=")
+    w("  match toCheb, inverseTranspose with")
+    for k in ((True, True), (True, False), (False, True), (False, False)):
+        w("  | %s, %s => %s" % ("true" if k[0] else "false", "true" if k[1] else "false",
+                                tabm[k]))
+    w("  end.")
+    # 'Array' axes are skipped whatever the requested label says
+    skips = True
+    for nb in (("Array", "Cardinal"), ("Cardinal", "Cardinal"), ("Chebyshev", "Cardinal")):
+        env = base_env()
+        env.update({"self.rank": 2, "self.basis": ("Array", "Chebyshev"), "newBasis": nb,
+                    "self.direction": ("z", "pp"), "self.endpoints": (False, False),
+                    "inverseTranspose": False})
+        it = Interp(env)
+        it.run_method(ms["changeBasis"])
+        cs = [c for c in it.calls if c[0] == "self.chebyshev"]
+        skips = skips and len(cs) == 1 and isinstance(cs[0][1][1], Rng) and \
+            cs[0][1][2] == "partial"
+    w("Definition gen_cb_skips_array_axes : bool := %s." % ("true" if skips else "false"))
+    facts["changeBasis_matrix"] = {"%s/%s" % k: v for k, v in tabm.items()}
+
     # ---- evaluate --------------------------------------------------------------------
     tcard, tcheb = {}, {}
     for (d, ep) in kinds:
@@ -735,7 +1022,7 @@ def generate(src):
     for (d, ep) in kinds:
         env = base_env()
         env.update({"direction": d, "endpoints": ep})
-        it = Interp(env, watch=("deriv",))
+        it = Interp(env, watch="*")
         it.run_method(ms["_chebyshevDeriv"])
         cs = [c for c in it.calls if c[0] == "eval_chebyu"]
         if len(cs) != 1 or len(cs[0][1]) != 2:
@@ -744,21 +1031,28 @@ def generate(src):
         g = cs[0][1][1]
         if not isinstance(g, GridV) or g.size != grid_size(d, True):
             raise TranslateError("_chebyshevDeriv: not evaluated on the complete grid")
-        inits = [e for e in it.events if e[0] == "init"]
-        if len(inits) != 1 or not (
-                isinstance(inits[0][2], ast.BinOp) and isinstance(inits[0][2].op, ast.Mult)
-                and isinstance(need_rng(it.ev(inits[0][2].left), "_chebyshevDeriv"), Rng)
-                and inits[0][2].right is cs[0][2]):
-            raise TranslateError("_chebyshevDeriv: deriv is not n * eval_chebyu(n - 1, x)")
+        # the variable holding  n * U_{n-1}(x)  (either order of the factors)
+        dvar = None
+        for e in it.events:
+            if e[0] != "init":
+                continue
+            nd = strip_neutral(e[2])
+            if isinstance(nd, ast.BinOp) and isinstance(nd.op, ast.Mult):
+                for u, v in ((nd.left, nd.right), (nd.right, nd.left)):
+                    if strip_neutral(v) is cs[0][2] and same_value(
+                            it.ev(it.strip_index(u)), rng):
+                        dvar = e[1]
+        if dvar is None:
+            raise TranslateError("_chebyshevDeriv: result is not n * eval_chebyu(n - 1, x)")
         hi = rng.hi - g.size
         if (rng.lo.aM, rng.lo.aN) != (0, 0) or hi.key() != (0, 0, 0):
             raise TranslateError("_chebyshevDeriv: range is not arange(const, grid.size)")
-        augs = [e for e in it.events if e[0] == "aug"]
+        augs = [e for e in it.events if e[0] == "aug" and e[1] == dvar]
         if len(augs) > 1:
             raise TranslateError("_chebyshevDeriv: more than one correction")
         if augs:
             idx, op, node, _v = augs[0][2]
-            pw = parity_where(node, "compactCoord")
+            pw = parity_where(node, it, rng, None)
             if idx is not None or op != "Sub" or pw != (0, 1):
                 raise TranslateError("_chebyshevDeriv: correction is not "
                                      "`deriv -= np.where(n % 2 == 0, 0, 1)`")
@@ -779,26 +1073,32 @@ def generate(src):
     for (d, ep) in kinds:
         env = base_env()
         env.update({"direction": d, "endpoints": ep})
-        it = Interp(env, watch=("derivWithEndpoints",))
+        it = Interp(env, watch="*")
         it.run_method(ms["_cardinalDeriv"])
-        g = it.env.get("grid")
-        if not isinstance(g, GridV) or g.size != grid_size(d, True):
+        gv = [v for k, v in it.env.items() if isinstance(v, GridV)]
+        if len(gv) != 1 or gv[0].size != grid_size(d, True):
             raise TranslateError("_cardinalDeriv: not built on the complete grid")
-        ev = [e for e in it.events if e[0] in ("slice", "alias")]
+        # the full matrix is the variable initialised by a three-argument np.where
+        full = [e[1] for e in it.events if e[0] == "init" and isinstance(e[2], ast.Call)
+                and it.name_of(e[2].func) == "np.where" and len(e[2].args) == 3]
+        ev = [e for e in it.events if e[0] in ("slice", "alias") and full and e[1] == full[-1]]
         if len(ev) != 1:
             raise TranslateError("_cardinalDeriv: expected one selection of rows")
         if ev[0][0] == "alias":
             lo, hi = 0, 0
         else:
             sl = ev[0][2]
-            if not (isinstance(sl, ast.Tuple) and len(sl.elts) == 2 and
-                    isinstance(sl.elts[0], ast.Slice) and isinstance(sl.elts[1], ast.Slice)
-                    and sl.elts[1].lower is None and sl.elts[1].upper is None and
-                    sl.elts[0].step is None):
+            if isinstance(sl, ast.Tuple) and len(sl.elts) == 2 and \
+                    isinstance(sl.elts[1], ast.Slice) and sl.elts[1].lower is None and \
+                    sl.elts[1].upper is None and sl.elts[1].step is None:
+                sl = sl.elts[0]
+            if not (isinstance(sl, ast.Slice) and sl.step is None):
                 raise TranslateError("_cardinalDeriv: selection is not [a:-b, :]")
-            s0 = sl.elts[0]
-            lo = 0 if s0.lower is None else ast.literal_eval(s0.lower)
-            hi = 0 if s0.upper is None else -ast.literal_eval(s0.upper)
+            try:
+                lo = 0 if sl.lower is None else ast.literal_eval(sl.lower)
+                hi = 0 if sl.upper is None else -ast.literal_eval(sl.upper)
+            except ValueError:
+                raise TranslateError("_cardinalDeriv: selection is not [a:-b, :]")
             if not (isinstance(lo, int) and isinstance(hi, int) and lo >= 0 and hi >= 0):
                 raise TranslateError("_cardinalDeriv: selection is not [a:-b, :]")
         tr = [c for c in it.calls if c[0] == "np.transpose"]
@@ -807,21 +1107,81 @@ def generate(src):
         tab[(d, ep)] = "(%d, %d)" % (lo, hi)
     match2("gen_cardDeriv_rows", "(d : dir) (ep : bool) : nat * nat", tab)
 
+    # ---- _cardinalMatrix: identity of the size of the node array --------------------------
+    if "_cardinalMatrix" not in ms or "matrix" not in ms or "derivMatrix" not in ms:
+        raise TranslateError("matrix / derivMatrix / _cardinalMatrix not found")
+    tab = {}
+    for (d, ep) in kinds:
+        env = base_env()
+        env.update({"direction": d, "endpoints": ep})
+        it = Interp(env)
+        it.run_method(ms["_cardinalMatrix"])
+        cs = [c for c in it.calls if c[0] == "np.identity"]
+        if len(cs) != 1 or len(cs[0][1]) != 1 or len(it.calls) != 1 or \
+                getattr(it, "retnode", None) is not cs[0][2]:
+            raise TranslateError("_cardinalMatrix does not return np.identity(size)")
+        tab[(d, ep)] = lin(cs[0][1][0]).coq()
+    match2("gen_cardMatrix_size", "(d : dir) (ep : bool) (M N : nat) : nat", tab)
+
+    # ---- dispatchers and default arguments ---------------------------------------------------
+    def default_of(fn, arg):
+        argn = [a.arg for a in fn.args.args]
+        if arg not in argn:
+            raise TranslateError("%s has no parameter %s" % (fn.name, arg))
+        k = argn.index(arg) - (len(argn) - len(fn.args.defaults))
+        if k < 0 or not isinstance(fn.args.defaults[k], ast.Constant):
+            raise TranslateError("%s: parameter %s has no constant default" % (fn.name, arg))
+        return fn.args.defaults[k].value
+
+    defaults = {m: default_of(ms[m], "endpoints") for m in (
+        "matrix", "derivMatrix", "_cardinalMatrix", "_chebyshevMatrix", "_cardinalDeriv",
+        "_chebyshevDeriv")}
+    disp = {}
+    for m, targets in (("matrix", {"Cardinal": "self._cardinalMatrix",
+                                   "Chebyshev": "self._chebyshevMatrix"}),
+                       ("derivMatrix", {"Cardinal": "self._cardinalDeriv",
+                                        "Chebyshev": "self._chebyshevDeriv"})):
+        for b, want in targets.items():
+            dd, ee = ArrayV("direction"), ArrayV("endpoints")
+            it = Interp({"basis": b, "direction": dd, "endpoints": ee})
+            it.run_method(ms[m])
+            cs = [c for c in it.calls if (c[0] or "").startswith("self._")]
+            kw = {k.arg: it.ev(k.value) for k in cs[0][2].keywords} if cs else {}
+            ok = (len(cs) == 1 and cs[0][0] == want and
+                  getattr(it, "retnode", None) is cs[0][2] and
+                  (cs[0][1][0] if cs[0][1] else kw.get("direction")) is dd and
+                  (cs[0][1][1] if len(cs[0][1]) > 1 else kw.get("endpoints")) is ee)
+            disp[(m, b)] = ok
+    w("(* matrix / derivMatrix call the builder of the requested basis with (direction,")
+    w("   endpoints) forwarded unchanged: %s *)" % ", ".join(
+        "%s(%s): %s" % (m, b, v) for (m, b), v in sorted(disp.items())))
+    w("Definition gen_dispatch_forwards : bool := %s." % (
+        "true" if all(disp.values()) else "false"))
+    w("(* default value of `endpoints` in matrix, derivMatrix and the four builders *)")
+    w("Definition gen_default_endpoints : list bool := [%s]." % "; ".join(
+        "true" if defaults[m] is True else "false" for m in sorted(defaults)))
+    if not all(isinstance(v, bool) for v in defaults.values()):
+        raise TranslateError("default of `endpoints` is not a bool")
+    facts["dispatch"] = {"%s/%s" % k: v for k, v in disp.items()}
+    facts["default_endpoints"] = defaults
+
     # ---- integrate: weights -----------------------------------------------------------------
     tdiv, thalf = {}, {}
     for (d, ep) in kinds:
         env = base_env()
         env.update({"self.rank": 1, "self.basis": ("Cardinal",), "self.direction": (d,),
                     "self.endpoints": (ep,), "axis": (0,), "weight": 1})
-        it = Interp(env, watch=("weights", "integrand"))
+        it = Interp(env, watch="*")
         it.run_method(ms["integrate"])
-        inits = [e for e in it.events if e[0] == "init" and e[1] == "weights"]
-        if len(inits) != 1 or ast.unparse(inits[0][2]).replace(" ", "") != \
-                "np.pi*np.ones(compactCoord.size)":
-            raise TranslateError("integrate: weights are not np.pi * np.ones(size)")
+        # the weights: the variable initialised with  pi * ones(size of the node array)
+        wv = [e for e in it.events if e[0] == "init" and isinstance(e[3], ConstArr)]
+        if len(wv) != 1 or wv[0][3].val != "pi" or wv[0][3].size != grid_size(d, ep):
+            raise TranslateError("integrate: weights are not pi * ones(number of nodes)")
+        wname = wv[0][1]
+        xs = [k for k, v in it.env.items() if isinstance(v, GridV) and "." not in k]
         divs, halves = [], []
         for e in it.events:
-            if e[0] != "aug" or e[1] != "weights":
+            if e[0] != "aug" or e[1] != wname:
                 continue
             idx, op, node, val = e[2]
             if op != "Div":
@@ -834,13 +1194,12 @@ def generate(src):
                 halves.append(idx)
         if len(divs) != 1:
             raise TranslateError("integrate: weights divided %d times" % len(divs))
-        mul = [e for e in it.events if e[0] == "aug" and e[1] == "integrand"]
-        if len(mul) != 1 or mul[0][2][1] != "Mult":
+        mul = [e for e in it.events if e[0] in ("aug", "rebind") and e[1] != wname]
+        if len(mul) != 1 or mul[0][2][1] != "Mult" or mul[0][2][0] is not None:
             raise TranslateError("integrate: integrand *= ... expected once per axis")
         node = mul[0][2][2]
-        if not (isinstance(node, ast.Call) and ast.unparse(node.func) == "np.expand_dims"
-                and ast.unparse(node.args[0]).replace(" ", "") ==
-                "np.sqrt(1-compactCoord**2)*weights"):
+        if not (isinstance(node, ast.Call) and it.name_of(node.func) == "np.expand_dims"
+                and node.args and integrand_factor(it, node.args[0], wname, xs)):
             raise TranslateError("integrate: factor is not sqrt(1 - x**2) * weights")
         tdiv[(d, ep)] = divs[0].coq()
         thalf[(d, ep)] = "[%s]" % "; ".join("(%d)%%Z" % h for h in halves)
@@ -863,15 +1222,23 @@ def generate(src):
         env = base_env()
         env.update({"self.rank": 1, "self.basis": ("Cardinal",), "self.direction": ("z",),
                     "self.endpoints": (False,), "axis": (0,), "weight": wv})
-        it = Interp(env, watch=("integrand",))
+        it = Interp(env, watch="*")
         it.run_method(ms["integrate"])
-        evs = [e for e in it.events if e[1] == "integrand" and e[0] in ("init", "aug")]
-        if not any(e[0] == "aug" for e in evs):
-            raise TranslateError("integrate: no in-place update of the integrand")
-        state = None        # freshness of the array currently bound to `integrand`
+        ivar = [e[1] for e in it.events if e[0] in ("aug", "rebind") and e[2][0] is None and
+                e[2][1] == "Mult" and isinstance(e[2][2], ast.Call) and
+                it.name_of(e[2][2].func) == "np.expand_dims"]
+        if len(ivar) != 1:
+            raise TranslateError("integrate: the product with the quadrature factor was "
+                                 "not found")
+        ivar = ivar[0]
+        evs = [e for e in it.events if e[1] == ivar and e[0] in ("init", "aug", "rebind")]
+        state = None        # freshness of the array currently bound to the integrand
         for e in evs:
+            if e[0] == "rebind":
+                state = True        # x = x * e allocates: nothing is updated in place
+                break
             if e[0] == "init":
-                state = fresh_expr(e[2], {"integrand": state})
+                state = fresh_expr(e[2], {ivar: state})
             else:
                 if state is None:
                     raise TranslateError("integrate: integrand updated before assignment")
@@ -893,16 +1260,24 @@ def generate(src):
 
     # ---- chebyshev: what is subtracted ---------------------------------------------------------
     subs = {}
+    params = [a.arg for a in ms["chebyshev"].args.args]
+    if len(params) != 4:
+        raise TranslateError("chebyshev(self, x, n, restriction) expected")
     for r in (None, "partial", "full"):
-        env = {"restriction": r}
-        it = Interp(env, watch=("cheb",))
+        xv, nv = ArrayV("x"), ArrayV("n")
+        env = {params[1]: xv, params[2]: nv, params[3]: r}
+        it = Interp(env, watch="*")
         it.run_method(ms["chebyshev"])
         cs = [c for c in it.calls if c[0] == "eval_chebyt"]
-        inits = [e for e in it.events if e[0] == "init"]
-        if len(cs) != 1 or len(inits) != 1 or inits[0][2] is not cs[0][2] or \
-                ast.unparse(cs[0][2]).replace(" ", "") != "eval_chebyt(n,compactCoord)":
-            raise TranslateError("chebyshev: cheb is not eval_chebyt(n, compactCoord)")
-        augs = [e for e in it.events if e[0] == "aug"]
+        if len(cs) != 1 or len(cs[0][1]) != 2 or cs[0][1][0] is not nv or \
+                cs[0][1][1] is not xv or cs[0][2].keywords:
+            raise TranslateError("chebyshev: not eval_chebyt(n, x) of the two arguments")
+        cvar = [e[1] for e in it.events if e[0] == "init" and strip_neutral(e[2]) is cs[0][2]]
+        if len(cvar) != 1:
+            raise TranslateError("chebyshev: the result is not eval_chebyt(n, x)")
+        augs = [e for e in it.events if e[0] == "aug" and e[1] == cvar[0]]
+        if [e for e in it.events if e[0] == "init" and e[1] == cvar[0]][1:]:
+            raise TranslateError("chebyshev: the result is reassigned")
         if len(augs) > 1:
             raise TranslateError("chebyshev: more than one restriction term")
         if not augs:
@@ -914,7 +1289,7 @@ def generate(src):
         if isinstance(node, ast.Constant) and node.value in (0, 1):
             subs[r] = (node.value, node.value)
         else:
-            pw = parity_where(node, "compactCoord")
+            pw = parity_where(node, it, nv, xv)
             if pw is None:
                 raise TranslateError("chebyshev: unsupported restriction term %s" %
                                      ast.unparse(node))
